@@ -49,14 +49,23 @@ def run(prop, tier, seed, repo, jobs):
         for kinds in combos:
             if watch and tier == 'quick' and prop == 'C11' and 'service' not in kinds:
                 continue     # single-instance obligation is about services
-            cases.append((prop, kinds, watch, K, qcap, seed, True, 300 if tier == 'quick' else (600 if n >= 3 else 1200), repo, tier))
+            cases.append((prop, kinds, watch, K, qcap, seed, True, 300 if tier == 'quick' else (600 if n >= 3 else 1200), repo, tier, None if tier == 'quick' else (900 if n >= 3 else 2400)))
     L = 10 if tier == 'quick' else 14
     locals_ = [(prop, kind, watch, L, repo) for (kind, watch) in proto.LOCAL_PLAN.get(prop, [])]
-    with Pool(min(jobs, len(cases) + len(locals_))) as pool:
+    sysq_cases = []
+    if prop in ('C04', 'C10'):
+        # blocking under queue pressure (explicit relay channel, blocking sends, bounded capacities clamped to 1)
+        kks = [('build', 'build')] if tier == 'quick' else [('build', 'build'), ('build', 'aggregate'), ('aggregate', 'build'), ('build', 'service'), ('service', 'build')]
+        if prop == 'C04':
+            kks = [kk for kk in kks if 'service' not in kk]      # a requested service legitimately keeps the run alive
+        sysq_cases = [(prop, kk, 20 if tier == 'quick' else 26, 1, 240 if tier == 'quick' else 900, repo) for kk in kks]
+    with Pool(min(jobs, len(cases) + len(locals_) + len(sysq_cases))) as pool:
         r1 = pool.map_async(proto.run_case, cases, chunksize=1)
         r2 = pool.map_async(proto.run_local, locals_, chunksize=1)
+        r3 = pool.map_async(proto.run_sysq, sysq_cases, chunksize=1)
         results = r1.get()
         lresults = r2.get()
+        qresults = r3.get()
     violations, inconclusive, known_lines = [], [], []
     reported_known, known_instances = {}, []
     undecided = []
@@ -206,6 +215,57 @@ def run(prop, tier, seed, repo, jobs):
                 inconclusive.append('%s: witness replay failed: %s' % (tag, e))
         elif not res['error']:
             inconclusive.append('%s: vacuity: no witness run found' % tag)
+    sysq_summary = []
+    for res in qresults:
+        tag = 'sysq %s cap=%d K=%d' % ('/'.join(res['kinds']), res['cap'], res['K'])
+        if res['error']:
+            inconclusive.append('%s: %s' % (tag, res['error']))
+            continue
+        for q in res['queries']:
+            nq += 1
+            solver_s += q['solver_s']
+            sysq_summary.append({'case': tag, 'obligation': q['name'], 'verdict': q['verdict'], 'solver_s': q['solver_s'], 'graph_and_root_cases': q['graph_cases'],
+                                 'inbox_unbounded_in_source': res.get('inbox_unbounded_in_source')})
+            if q['verdict'] == 'unsat':
+                nunsat += 1
+                continue
+            if q['name'].startswith('bound_sufficient'):
+                # informational: with the explicit relay some runs are longer than K; the search covers every prefix of length K
+                sysq_summary[-1]['meaning'] = 'K does not cover every run: states reachable within K steps are covered, longer runs are outside this search'
+                continue
+            if q['verdict'] != 'sat':
+                undecided.append({'case': tag, 'obligation': q['name'], 'verdict': q['verdict'], 'solver_s': q['solver_s']})
+                continue
+            case = q['case']
+            replay_n += 1
+            rpath = os.path.join(common.REPLAYS, '%s-sysq-%d.json' % (prop, replay_n))
+            try:
+                import tempfile, shutil
+                from ..native import build_native, run_native
+                binpath, _ = build_native(repo)
+                d = tempfile.mkdtemp(prefix='zxq-', dir=os.environ.get('VERIF_SCRATCH', '/var/tmp'))
+                try:
+                    args = rp.write_project(case, d)
+                    sched, order = rp.schedule_for_q(case, d, res['cap'])
+                    tr = rp.NativeTrace(run_native(binpath, d, args, sched, timeout=60), case)
+                finally:
+                    shutil.rmtree(d, ignore_errors=True)
+                confirmed = proto.confirm_native(q['confirm'], case, tr)
+            except Exception as e:   # pragma: no cover
+                inconclusive.append('%s: native replay failed: %s' % (tag, e))
+                continue
+            rp.save_replay(rpath, prop, q['name'], case, sched, args, tr.summary())
+            d_ = json.load(open(rpath))
+            d_['kind'] = 'sysq'
+            d_['cap'] = res['cap']
+            d_['confirm'] = q['confirm']
+            json.dump(d_, open(rpath, 'w'), indent=1, default=str)
+            if not confirmed:
+                inconclusive.append('%s: %s: circular wait did not reproduce on the real code with clamped capacities (replay %s)' % (tag, q['name'], rpath))
+                continue
+            violations.append(rpath)
+            samples.append({'case': tag, 'obligation': q['name'], 'verdict': 'sat (reproduced natively with capacities clamped to %d)' % res['cap'],
+                            'graph': case['deps'], 'roots': case['roots'], 'schedule': [s_['alt'] for s_ in case['steps'] if s_['alt'][0] != 'stutter']})
     if prop == 'C06':
         # the clause "no detected change is absorbed by a skip" is about incremental::run, decided over the symbolic file system
         try:
@@ -300,7 +360,7 @@ def run(prop, tier, seed, repo, jobs):
         'bounds': [{'n_targets': n, 'watch': w, 'K_steps': K, 'inbox_capacity_model': q, 'max_notifications': 2 if w else 0} for (n, w, K, q) in plan(prop, tier)],
         'outside_claim': ['graphs with more targets than the bound', 'schedules longer than K (K is checked sufficient for quiescence where stated)',
                           'blocking on full channels (capacity 64 is never reached within the bound; see DESIGN F2)', 'real OS scheduling / process groups'],
-        'exhaustive': False, 'known_finding_instances': known_instances, 'undecided_at_n3': undecided,
+        'exhaustive': False, 'known_finding_instances': known_instances, 'undecided_at_n3': undecided, 'queue_pressure_search': sysq_summary,
         'case_wall_s': {('%s%s' % ('/'.join(r['kinds']), ' watch' if r['watch'] else '')): [r.get('wall_s'), r.get('summary_s'), r.get('unroll_s'), (r.get('witness') or {}).get('solver_s')] for r in results},
     }
     common.write_evidence(prop, tier, seed, 'model_checking', coverage, ASSUMPTIONS, wall, len(violations))
